@@ -61,8 +61,8 @@ def check_summary(obj, X, viol):
         if f in obj.qualitative_features:
             known = [v for v in order.values() if isinstance(v, str) and v != obj.str_default and not (v == obj.str_nan and not dropna)]
             listed = [v for c in contents for v in c]
-            if sorted(listed) != sorted(known):
-                viol.append({"kind": "summary-partition", "what": f"{f}: summary contents {sorted(listed)!r} do not partition the known values {sorted(known)!r}"})
+            if sorted(listed, key=repr) != sorted(known, key=repr):
+                viol.append({"kind": "summary-partition", "what": f"{f}: summary contents {sorted(listed, key=repr)!r} do not partition the known values {sorted(known, key=repr)!r}"})
             for lab, content in zip(labels, contents):
                 for v in content:
                     val = np.nan if v == obj.str_nan else v
